@@ -184,12 +184,6 @@ Section Written.
   Notation get_mod := (get_modified N other schema byte decode encode dns dms state site indiv pop rest tunits
                          pv pv_string record dump constrain_ages finish_mutations valid).
 
-  Lemma map3_third {A B C D E} (p : D -> E) (f : A -> B -> C -> D) :
-    (forall x y z, p (f x y z) = z) ->
-    forall a b (c : list C), length b = length a -> length c = length a ->
-      map p (map3 f a b c) = map (fun z : E => z) (map (fun z => z) c) -> True.
-  Proof. trivial. Qed.
-
   Lemma map3_md_nodes (a : list (node_row N byte)) (b : list T) (c : list (bytes byte)) :
     length b = length a -> length c = length a ->
     map n_md (map3 (fun r t md => mkNode (n_flags r) t (n_pop r) (n_ind r) md) a b c) = c.
@@ -268,3 +262,51 @@ Section Written.
     repeat split. apply map3_md_nodes; [lia | now rewrite map_length].
   Qed.
 End Written.
+
+(** ** Witnesses *)
+From Coq Require Import QArith PrimFloat.
+From TsdateV Require Import model.Constrain.
+
+(** exact run over the rationals: a row proportional to (1, 2, 4) on the grid (0, 1, 2) *)
+Definition qsum (l : list Q) : Q := fold_left (Num.add QNum) l 0%Q.
+Lemma discrete_example :
+  posterior_row QNum qsum (fun x => x) LinGrid [1; 2; 4]%Q = Some [1 # 7; 2 # 7; 4 # 7]%Q /\
+  mean_var_row QNum qsum [0; 1; 2]%Q [1 # 7; 2 # 7; 4 # 7]%Q = (10 # 7, 26 # 49)%Q /\
+  mean_var_node QNum qsum [0; 1; 2]%Q (5 # 1)%Q None = (5 # 1, 0)%Q.
+Proof. vm_compute. repeat split. Qed.
+
+(** K9 at the metadata level: the codec stores the dict itself, set_metadata=True, two mutations at
+    one site with posterior means 5 (row 0, on sample 0) and 9 (row 1, above the root): row 0 of
+    the output carries mn = 9 = mutation_posteriors()[1] *)
+Definition wrow := row float Z.
+Definition w_decode (_ : bool) (b : list wrow) : dec float Z :=
+  match b with r :: _ => DecRow r | [] => DecRow [] end.
+Definition w_encode (_ : bool) (r : wrow) : @enc wrow := EncOk [r].
+Definition wNode := @mkNode FNum wrow.
+Definition wEdge := @mkEdge FNum wrow.
+Definition wMut := @mkMut FNum wrow Z.
+Definition w_tables : @tables FNum bool wrow Z Z unit unit unit Z (list (string * Z)) :=
+  @mkTables FNum bool wrow Z Z unit unit unit Z (list (string * Z)) 10%float 1%Z
+    [wNode 1%Z 0%float (-1)%Z (-1)%Z []; wNode 1%Z 0%float (-1)%Z (-1)%Z []; wNode 0%Z 1%float (-1)%Z (-1)%Z []]
+    None
+    [wEdge 0%float 10%float 2%nat 0%nat []; wEdge 0%float 10%float 2%nat 1%nat []]
+    [0%Z]
+    [wMut 0%nat 0%nat (Some 0.5%float) 7%Z None []; wMut 0%nat 2%nat (Some 1%float) 8%Z None []]
+    None [] tt tt [] tt.
+Definition w_result : @result FNum :=
+  @mkResult FNum [0%float; 0%float; 2%float] (Some [0%float; 0%float; 1%float])
+           (Some [5%float; 9%float]) (Some [1%float; 1%float]) [0%nat; 2%nat].
+Definition w_out :=
+  get_modified FNum Z bool wrow w_decode w_encode true true Z Z unit unit unit Z Z zstr
+    (list (string * Z)) zdump (fun es fx t => constrain_list FNum 1e-8%float fx 0 es t)
+    (fun _ _ m => m) (fun _ => true) (mkConfig 1%Z (Some true) "variational_gamma"%string None) w_tables w_result.
+
+Lemma metadata_rows_witness :
+  match w_out with
+  | Modified out _ =>
+      map (fun m : mut_row FNum wrow Z => (m_state m, m_md m)) (muts out)
+      = [(8%Z, [[("mn"%string, VNum 9%float); ("vr"%string, VNum 1%float)]]);
+         (7%Z, [[("mn"%string, VNum 5%float); ("vr"%string, VNum 1%float)]])]
+  | Failed _ => False
+  end.
+Proof. vm_compute. reflexivity. Qed.
